@@ -128,6 +128,10 @@ def run_case(case):
         elif variant == 'chained' and op_ in ('sum', 'max', 'min', 'multiply') and ftyp == 'integer':
             # a second computed field of the SAME call uses the first one as a source
             first = {'target': 'half', 'operation': 'avg', 'source': ['x', 'y']}
+            if rng.random() < 0.5:
+                # ... the first one declared with an explicit target descriptor (its type is what the second one builds on)
+                first = {'target': {'name': 'half', 'type': 'number', 'title': 'Half'}, 'operation': 'avg', 'source': ['x', 'y']}
+                label += '/explicit_target'
             for r in rows:
                 if r['x'] is None and r['y'] is None:
                     r['x'] = 1
@@ -184,7 +188,7 @@ def run_case(case):
         kind = rng.choice(['concatenate', 'unpivot', 'set_type', 'find_replace', 'duplicate_alias', 'load_csv',
                            'twin_isolation', 'twin_isolation', 'rename_chain', 'multi_then_single',
                            'multi_then_single', 'pk_then_field_op', 'load_package_extract_missing',
-                           'set_type_two_positions'])
+                           'set_type_two_positions', 'computed_chain_explicit_target'])
         if kind == 'concatenate' and rng.random() < 0.4:
             # a required field that only ONE of the concatenated resources has
             a = [{'id': i, 'v': 'x%d' % i} for i in range(3)]
@@ -205,6 +209,16 @@ def run_case(case):
             mk = lambda e: [lab.source('a', fa, a), lab.source('b', fb, b),                    # noqa: E731
                             d.concatenate({'id': [], 'v': ['w'], 'extra': []}, target={'name': 'c', 'path': 'c.csv'})]
             label = 'concatenate/' + ftyp
+        elif kind == 'computed_chain_explicit_target':
+            # two computed fields of one call: the first declared with an explicit descriptor (number), the second computed
+            # from it and an integer column
+            op2 = rng.choice(['sum', 'max', 'min', 'multiply'])
+            rows = [{'id': i, 'x': rng.choice([1, 2, 3, 8]), 'y': rng.choice([2, 5, 7])} for i in range(5)]
+            fl = [{'name': 'id', 'type': 'integer'}, {'name': 'x', 'type': 'integer'}, {'name': 'y', 'type': 'integer'}]
+            specs_ = [{'target': {'name': 'half', 'type': 'number', 'title': 'Half'}, 'operation': 'avg', 'source': ['x', 'y']},
+                      {'target': 'out', 'operation': op2, 'source': ['half', 'x']}]
+            mk = lambda e: [lab.source('t', fl, rows), d.add_computed_field(copy.deepcopy(specs_))]   # noqa: E731
+            label = 'computed_chain_explicit_target/' + op2
         elif kind == 'set_type_two_positions':
             # ONE set_type object (default resources = the last one) used after each of two sources
             ftyp, vals = rng.choice([('integer', ['1', '22']), ('number', ['1.5', '2']), ('date', ['2020-01-31'])])
